@@ -51,7 +51,7 @@ fn check_value(u: &Universe, ty: &Ty, v: u32, dv: &DV, input_len: usize, path: &
             if m > 0 && xs.len().saturating_mul(m) > input_len {
                 return Err(format!("collection with {} elements (>= {} bytes each) returned from {} input bytes at {}", xs.len(), m, input_len, here(path)));
             }
-            let mark = if u.caps(a).copy { "[bulk]" } else { "" };
+            let mark = if raw_copy_shape(u, a) { "[bulk]" } else { "" };
             for (i, x) in xs.iter().enumerate().take(4096) {
                 path.push(format!("{}{}", mark, i));
                 check_value(u, a, v, x, input_len, path)?;
@@ -70,7 +70,7 @@ fn check_value(u: &Universe, ty: &Ty, v: u32, dv: &DV, input_len: usize, path: &
             }
         }
         (Ty::Array(a, _), DV::L(xs)) | (Ty::Range(a), DV::L(xs)) => {
-            let mark = if matches!(ty, Ty::Array(_, _)) && u.caps(a).copy { "[bulk]" } else { "" };
+            let mark = if matches!(ty, Ty::Array(_, _)) && raw_copy_shape(u, a) { "[bulk]" } else { "" };
             for (i, x) in xs.iter().enumerate() {
                 path.push(format!("{}{}", mark, i));
                 check_value(u, a, v, x, input_len, path)?;
@@ -110,6 +110,22 @@ fn check_value(u: &Universe, ty: &Ty, v: u32, dv: &DV, input_len: usize, path: &
         _ => return Err(format!("value of unexpected shape at {}", here(path))),
     }
     Ok(())
+}
+
+/// Could the library read this type with one raw memory copy? (primitives and definitions,
+/// tuples and arrays made only of such fields; fields that are gone from memory do not count) —
+/// the shapes for which it is the *bulk* reader, not the field-by-field one, that produced a value.
+fn raw_copy_shape(u: &Universe, ty: &Ty) -> bool {
+    match ty {
+        Ty::Prim(_) | Ty::Unit => true,
+        Ty::Array(a, _) => raw_copy_shape(u, a),
+        Ty::Tuple(ts) => ts.iter().all(|t| raw_copy_shape(u, t)),
+        Ty::Def(i, args) => {
+            let d = &u.defs[*i];
+            !d.recursive && d.fields_all().iter().filter(|f| f.is_live()).all(|f| raw_copy_shape(u, &Universe::subst(&f.ty, args)))
+        }
+        _ => false,
+    }
 }
 
 fn elem_ty(p: PathK, ty: &Ty) -> Ty {
@@ -235,8 +251,10 @@ pub fn judge(b: &Batch, ri: usize, c: Container, p: PathK, v: u32, input: &[u8])
             let mut path = vec![];
             for x in &vals {
                 if let Err(e) = check_value(u, ty, file_version.min(u.version), x, input.len(), &mut path) {
-                    let root_copy = u.caps(ty).copy;
-                    let via_bulk = e.contains("[bulk]") || (p != PathK::Single && root_copy) || (root_copy && ops.packed(file_version.min(u.version)));
+                    let root_copy = raw_copy_shape(u, ty);
+                    // a type that reports itself bulk-copyable at this version is read with one raw
+                    // copy (alone and inside sequences/arrays), whether or not it is `Copy`
+                    let via_bulk = e.contains("[bulk]") || (p != PathK::Single && root_copy) || ops.packed(file_version.min(u.version));
                     let kind = if e.contains("in-memory discriminant") {
                         "invalid_enum"
                     } else if e.starts_with("bool") {
